@@ -262,6 +262,15 @@ func (fv *FuncVerifier) invEnv(e *Enc, h *ssa.BasicBlock, phiSubst map[*ssa.Phi]
 		}
 		return inner(name)
 	}
+	base.preVer = e.loopPre[h]
+	if base.preVer == nil && phiSubst != nil {
+		// invariant checked on an entry edge: "loop entry" is the current state
+		snap := map[string]int{}
+		for k, v := range e.cur {
+			snap[k] = v
+		}
+		base.preVer = snap
+	}
 	// $visited: iterator of the Next in this header
 	for _, in := range h.Instrs {
 		if nx, ok := in.(*ssa.Next); ok && !nx.IsString {
@@ -280,7 +289,7 @@ func (fv *FuncVerifier) invEnv(e *Enc, h *ssa.BasicBlock, phiSubst map[*ssa.Phi]
 
 func (fv *FuncVerifier) newEnc(name string) *Enc {
 	e := &Enc{w: fv.w, fn: fv.fn, spec: fv.spec, pass: fv.pass, fv: fv, decls: map[string]string{}, funDecls: map[string]string{},
-		ver: map[string]int{}, cur: map[string]int{}, segName: name, dec0: map[*ssa.BasicBlock]string{}, reach: map[*ssa.BasicBlock]string{}, exitHeap: map[*ssa.BasicBlock]map[string]int{},
+		ver: map[string]int{}, cur: map[string]int{}, segName: name, dec0: map[*ssa.BasicBlock]string{}, loopPre: map[*ssa.BasicBlock]map[string]int{}, letLevel: map[string]int{}, opaque: map[string]string{}, refVals: map[string][]string{}, refSeen: map[string]bool{}, refBlk: map[string]*ssa.BasicBlock{}, ancCache: map[*ssa.BasicBlock]map[*ssa.BasicBlock]bool{}, reach: map[*ssa.BasicBlock]string{}, exitHeap: map[*ssa.BasicBlock]map[string]int{},
 		inSeg: map[*ssa.BasicBlock]bool{}}
 	return e
 }
@@ -620,10 +629,14 @@ func (fv *FuncVerifier) encodeFunction(e *Enc) {
 					if same {
 						continue
 					}
-					nv := e.bump(h)
-					for _, ie := range ins {
-						e.assume(fmt.Sprintf("(=> %s (= %s %s))", ie.name, nv, e.heapAt(h, e.exitHeap[ie.pred][h])))
+					// one definitional equality with an ite chain (no conditional
+					// array equalities: those drag in extensionality reasoning)
+					term := e.heapAt(h, e.exitHeap[ins[len(ins)-1].pred][h])
+					for k := len(ins) - 2; k >= 0; k-- {
+						term = fmt.Sprintf("(ite %s %s %s)", ins[k].name, e.heapAt(h, e.exitHeap[ins[k].pred][h]), term)
 					}
+					nv := e.bump(h)
+					e.assume(fmt.Sprintf("(= %s %s)", nv, term))
 				}
 				if !fv.isHeader(b) {
 					for _, in := range b.Instrs {
@@ -634,14 +647,19 @@ func (fv *FuncVerifier) encodeFunction(e *Enc) {
 						if _, isT := p.Type().(*types.Tuple); isT {
 							continue
 						}
-						for _, ie := range ins {
+						incoming := func(pred *ssa.BasicBlock) string {
 							for pi, pp := range b.Preds {
-								if pp == ie.pred {
-									e.assume(fmt.Sprintf("(=> %s (= %s %s))", ie.name, e.val(p), e.val(p.Edges[pi])))
-									break
+								if pp == pred {
+									return e.val(p.Edges[pi])
 								}
 							}
+							return e.val(p)
 						}
+						term := incoming(ins[len(ins)-1].pred)
+						for k := len(ins) - 2; k >= 0; k-- {
+							term = fmt.Sprintf("(ite %s %s %s)", ins[k].name, incoming(ins[k].pred), term)
+						}
+						e.assume(fmt.Sprintf("(= %s %s)", e.val(p), term))
 					}
 				}
 			}
@@ -678,18 +696,19 @@ func (fv *FuncVerifier) enterLoop(e *Enc, h *ssa.BasicBlock) {
 	for k, v := range e.cur {
 		pre[k] = v
 	}
+	e.loopPre[h] = pre
 	for _, hn := range lw {
 		e.bump(hn)
 	}
 	if e.cur[heapAlloc] != pre[heapAlloc] {
-		e.assume(fmt.Sprintf("(forall ((r Ref)) (! (=> (select %s r) (select %s r)) :pattern ((select %s r))))", allocPre, e.H(heapAlloc), e.H(heapAlloc)))
+		e.assume(fmt.Sprintf("(<= %s %s)", allocPre, e.H(heapAlloc)))
 	}
 	if fv.hasModSpec() {
 		for _, hn := range lw {
 			if hn == heapAlloc || !isRefHeap(w.heapSorts[hn]) {
 				continue
 			}
-			e.assume(fmt.Sprintf("(forall ((r Ref)) (! (=> (and (select %s r) (not %s)) (= (select %s r) (select %s r))) :pattern ((select %s r))))",
+			e.assume(fmt.Sprintf("(forall ((r Ref)) (! (=> (and (isalloc %s r) (not %s)) (= (select %s r) (select %s r))) :pattern ((select %s r))))",
 				e.H0(heapAlloc), fv.modPred(e, "r"), e.H(hn), e.H0(hn), e.H(hn)))
 		}
 		for _, hn := range lw {
@@ -733,7 +752,7 @@ func (fv *FuncVerifier) enterLoop(e *Enc, h *ssa.BasicBlock) {
 		}
 		if fv.cover {
 			e.obls = append(e.obls, &Obligation{Name: fmt.Sprintf("cover/loop%d", fv.headerOrd[h]), Fn: funcKey(fv.fn), Kind: "cover", Prefix: len(e.asserts),
-				Reach: reach, Goal: "false", Src: "vacuity guard: the loop header must be reachable with its invariants assumed (expected: NOT unsat)", enc: e})
+				Reach: reach, Goal: "false", Src: "vacuity guard: the loop header must be reachable with its invariants assumed (expected: NOT unsat)", enc: e, Block: h})
 		}
 		if ls.Decr != nil && fv.pass.Active(ls.Decr.Tags) {
 			t, _, err := env.elab(ls.Decr.E)
